@@ -9,9 +9,26 @@ namespace TraitsVerif.Model.Sync
 open TraitsVerif TraitsVerif.Py TraitsVerif.Model
 variable {α : Type}
 
-/-- Every trait of the world either stores `y` unchanged or rejects it. -/
-def Fix (E : Env α) (y : AVal α) : Prop :=
-  ∀ r, validate E r y = .ok y ∨ ∃ e, validate E r y = .error e
+/-- Every trait some link leads to either stores `y` unchanged or rejects it. -/
+def Fix (E : Env α) (es : List Edge) (y : AVal α) : Prop :=
+  ∀ e ∈ es, validate E e.dst y = .ok y ∨ ∃ err, validate E e.dst y = .error err
+
+theorem mem_partners {w : World α} {p q : Pair} : q ∈ w.partners p ↔ (⟨p, q⟩ : Edge) ∈ w.edges := by
+  simp only [World.partners, List.mem_map, List.mem_filter]
+  constructor
+  · rintro ⟨e, ⟨he, hs⟩, hd⟩
+    have hs' : e.src = p := by simpa using hs
+    have : e = ⟨p, q⟩ := by cases e; simp_all
+    rw [← this]; exact he
+  · intro he; exact ⟨⟨p, q⟩, ⟨he, by simp⟩, rfl⟩
+
+/-- What `Fix` gives for a partner. -/
+theorem Fix.partner {E : Env α} {w : World α} {y : AVal α} (hfix : Fix E w.edges y) {p q : Pair}
+    (hq : q ∈ w.partners p) : ∀ new, validate E q y = .ok new → new = y := by
+  intro new hv
+  rcases hfix ⟨p, q⟩ (mem_partners.mp hq) with h | ⟨e, h⟩
+  · simp only at h; rw [h] at hv; cases hv; rfl
+  · simp only at h; rw [h] at hv; cases hv
 
 /-- Trait `r` kept its value and was not notified, or changed to `y` and was
 notified exactly once. -/
@@ -45,16 +62,24 @@ theorem Once.unlock {y : AVal α} {a b : World α} (p : Pair) (h : Once y a b) :
 
 theorem Once.lock {y : AVal α} {a b : World α} (p : Pair) (h : Once y (a.lock p) b) : Once y a b := h
 
+/-- The relation the loop keeps: `Once`, and the tables stay. -/
+def OnceT (y : AVal α) (w w' : World α) : Prop := Once y w w' ∧ SameTabs w w'
+
+theorem OnceT.refl (y : AVal α) (w : World α) : OnceT y w w := ⟨Once.refl _ _, SameTabs.refl _⟩
+
+theorem OnceT.trans {y : AVal α} {a b c : World α} (h1 : OnceT y a b) (h2 : OnceT y b c) : OnceT y a c :=
+  ⟨h1.1.trans h2.1, h1.2.trans h2.2⟩
+
 /-- **Each trait changes at most once.** The whole propagation of an
 assignment whose validated value is `y`. -/
-theorem assign_once [DecidableEq α] {E : Env α} {y : AVal α} (hfix : Fix E y) (d : Nat) :
+theorem assign_once [DecidableEq α] {E : Env α} {y : AVal α} (d : Nat) :
     ∀ (w : World α) (p : Pair) (v : AVal α) (w' : World α) (ret : Option α),
-      (∀ new, validate E p v = .ok new → new = y) →
+      Fix E w.edges y → (∀ new, validate E p v = .ok new → new = y) →
       cascade (applyAssign E) d w p v = .ok (w', ret) → Once y w w' := by
   induction d with
-  | zero => intro w p v w' ret _ h; simp [cascade] at h
+  | zero => intro w p v w' ret _ _ h; simp [cascade] at h
   | succ d ih =>
-    intro w p v w' ret hv h
+    intro w p v w' ret hfix hv h
     obtain ⟨w1, pay, happ, hshape⟩ := cascade_succ_ok h
     obtain ⟨new, hval, _, hcase⟩ := applyAssign_ok happ
     have hnew := hv new hval
@@ -70,41 +95,43 @@ theorem assign_once [DecidableEq α] {E : Env α} {y : AVal α} (hfix : Fix E y)
       · exact Or.inl ⟨by simp [upd, hr], by simp [upd, hr]⟩
     rcases hcase with ⟨_, hw1, hpay⟩ | ⟨hne, hpay, hw1⟩
     · -- nothing changed
-      subst hw1
-      rcases hshape with ⟨_, rfl⟩ | ⟨y', hy', _⟩ | ⟨y', hy', _⟩
-      · exact Once.refl _ _
+      rcases hshape with ⟨_, h'⟩ | ⟨y', hy', _⟩ | ⟨y', hy', _⟩
+      · rw [h', hw1]; exact Once.refl _ _
       · rw [hpay] at hy'; cases hy'
       · rw [hpay] at hy'; cases hy'
     · have h1 := hstore hne hw1
+      have hw1e : w1.edges = w.edges := by rw [hw1]
       rcases hshape with ⟨hy', _⟩ | ⟨y', _, _, rfl⟩ | ⟨y', hy', _, rfl⟩
       · rw [hpay] at hy'; cases hy'
       · exact h1
       · rw [hpay] at hy'
         cases hy'
         refine Once.trans h1 (Once.unlock p (Once.lock p ?_))
-        apply foldl_rel (Once new) (Once.refl new) (fun _ _ _ => Once.trans)
-        intro acc q acc' r _ hc
-        refine ih acc q new acc' r ?_ hc
-        intro new' hv'
-        rcases hfix q with h | ⟨e, h⟩
-        · rw [h] at hv'; cases hv'; rfl
-        · rw [h] at hv'; cases hv'
+        have := foldl_rel_inv (rec := cascade (applyAssign E) d) (y := new)
+          (fun acc => acc.edges = w.edges) (OnceT new) (OnceT.refl new) (fun _ _ _ => OnceT.trans)
+          (w1.partners p) ?_ (w1.lock p) (by simp [World.lock, hw1e])
+        · exact this.1.1
+        · intro acc q acc' r hacc hq hql hc
+          have hq' : q ∈ acc.partners p := by
+            rw [partners_congr (w := w1) (w' := acc) (by rw [hacc, hw1e]) p]; exact hq
+          have hfr := cascade_frame (local_assign E) d acc q new acc' r hql hc
+          refine ⟨⟨ih acc q new acc' r (by rw [hacc]; exact hfix) ?_ hc, hfr⟩, by rw [hfr.1]; exact hacc⟩
+          exact Fix.partner (w := acc) (by rw [hacc]; exact hfix) hq'
 
 /-- The assigned trait holds the validated value afterwards (any budget ≥ 1). -/
-theorem assign_sets [DecidableEq α] {E : Env α} {y : AVal α} (hfix : Fix E y) (d : Nat)
-    (w : World α) (p : Pair) (v : AVal α) (hv : validate E p v = .ok y) :
+theorem assign_sets [DecidableEq α] {E : Env α} {y : AVal α} (d : Nat)
+    (w : World α) (p : Pair) (v : AVal α) (hfix : Fix E w.edges y) (hv : validate E p v = .ok y) :
     ∃ w' ret, cascade (applyAssign E) (d + 1) w p v = .ok (w', ret) ∧ w'.val p = y := by
-  have happ : ∃ w1 pay, applyAssign E w p v = .ok (w1, none, pay) ∧ w1.val p = y := by
+  have happ : ∃ w1 pay, applyAssign E w p v = .ok (w1, none, pay) ∧ w1.val p = y ∧ w1.edges = w.edges := by
     unfold applyAssign
     rw [hv]
     simp only
     split
-    · rename_i h; exact ⟨_, _, rfl, h.symm⟩
-    · exact ⟨_, _, rfl, by simp [upd]⟩
-  obtain ⟨w1, pay, happ, hw1⟩ := happ
+    · rename_i h; exact ⟨_, _, rfl, h.symm, rfl⟩
+    · exact ⟨_, _, rfl, by simp [upd], rfl⟩
+  obtain ⟨w1, pay, happ, hw1, hw1e⟩ := happ
   obtain ⟨w', hc⟩ := cascade_succ_of_apply (d := d) happ
   refine ⟨w', none, hc, ?_⟩
-  have honce := assign_once hfix (d + 1) w p v w' none (fun new h => by rw [hv] at h; cases h; rfl) hc
   obtain ⟨w1', pay', happ', hshape⟩ := cascade_succ_ok hc
   rw [happ] at happ'
   simp only [Except.ok.injEq, Prod.mk.injEq] at happ'
@@ -113,41 +140,51 @@ theorem assign_sets [DecidableEq α] {E : Env α} {y : AVal α} (hfix : Fix E y)
   · exact hw1
   · exact hw1
   · -- the loop keeps a value that is already `y`
-    have : Once y (w1.lock p) ((w1.partners p).foldl (visitPartner (cascade (applyAssign E) d) y') (w1.lock p)) := by
-      obtain ⟨new, hval, _, hcase⟩ := applyAssign_ok happ
-      rw [hv] at hval; cases hval
-      have hy : y' = y := by
-        rcases hcase with ⟨_, _, hp⟩ | ⟨_, hp, _⟩
-        · rw [hp] at hy'; cases hy'
-        · rw [hp] at hy'; cases hy'; rfl
-      subst hy
-      apply foldl_rel (Once y') (Once.refl y') (fun _ _ _ => Once.trans)
-      intro acc q acc' r _ hc'
-      refine assign_once hfix d acc q y' acc' r ?_ hc'
-      intro new' hv'
-      rcases hfix q with h | ⟨e, h⟩
-      · rw [h] at hv'; cases hv'; rfl
-      · rw [h] at hv'; cases hv'
-    exact this.keeps (r := p) hw1
+    obtain ⟨new, hval, _, hcase⟩ := applyAssign_ok happ
+    rw [hv] at hval; cases hval
+    have hy : y' = y := by
+      rcases hcase with ⟨_, _, hp⟩ | ⟨_, hp, _⟩
+      · rw [hp] at hy'; cases hy'
+      · rw [hp] at hy'; cases hy'; rfl
+    subst hy
+    have := foldl_rel_inv (rec := cascade (applyAssign E) d) (y := y')
+      (fun acc => acc.edges = w.edges) (OnceT y') (OnceT.refl y') (fun _ _ _ => OnceT.trans)
+      (w1.partners p) ?_ (w1.lock p) (by simp [World.lock, hw1e])
+    · exact this.1.1.keeps (r := p) hw1
+    · intro acc q acc' r hacc hq hql hc'
+      have hq' : q ∈ acc.partners p := by
+        rw [partners_congr (w := w1) (w' := acc) (by rw [hacc, hw1e]) p]; exact hq
+      have hfr := cascade_frame (local_assign E) d acc q y' acc' r hql hc'
+      refine ⟨⟨assign_once d acc q y' acc' r (by rw [hacc]; exact hfix) ?_ hc', hfr⟩, by rw [hfr.1]; exact hacc⟩
+      exact Fix.partner (w := acc) (by rw [hacc]; exact hfix) hq'
 
 /-- In the handler's loop, a partner that accepts `y` ends up holding `y`. -/
-theorem foldl_sets [DecidableEq α] {E : Env α} {y : AVal α} (hfix : Fix E y) (d : Nat)
-    (q : Pair) (hq : validate E q y = .ok y) (ps : List Pair) (hmem : q ∈ ps) :
-    ∀ acc : World α, (q ∈ acc.locked → acc.val q = y) →
+theorem foldl_sets [DecidableEq α] {E : Env α} {y : AVal α} (d : Nat) (es : List Edge) (hfix : Fix E es y)
+    (q : Pair) (hq : validate E q y = .ok y) (ps : List Pair) (hmem : q ∈ ps)
+    (hps : ∀ t ∈ ps, ∀ new, validate E t y = .ok new → new = y) :
+    ∀ acc : World α, acc.edges = es → (q ∈ acc.locked → acc.val q = y) →
       (ps.foldl (visitPartner (cascade (applyAssign E) (d + 1)) y) acc).val q = y := by
-  have hrec : ∀ acc t acc' r, t ∉ acc.locked →
-      cascade (applyAssign E) (d + 1) acc t y = .ok (acc', r) → Once y acc acc' := by
-    intro acc t acc' r _ hc
-    refine assign_once hfix (d + 1) acc t y acc' r ?_ hc
-    intro new' hv'
-    rcases hfix t with h | ⟨e, h⟩
-    · rw [h] at hv'; cases hv'; rfl
-    · rw [h] at hv'; cases hv'
+  have hrec : ∀ acc t acc' r, acc.edges = es → t ∈ ps → t ∉ acc.locked →
+      cascade (applyAssign E) (d + 1) acc t y = .ok (acc', r) → OnceT y acc acc' ∧ acc'.edges = es := by
+    intro acc t acc' r hacc ht hl hc
+    have hfr := cascade_frame (local_assign E) _ acc t y acc' r hl hc
+    exact ⟨⟨assign_once (d + 1) acc t y acc' r (by rw [hacc]; exact hfix) (hps t ht) hc, hfr⟩,
+      by rw [hfr.1]; exact hacc⟩
   induction ps with
   | nil => cases hmem
   | cons t ts ih =>
-    intro acc hacc
+    intro acc hacce hacc
     simp only [List.foldl_cons]
+    have hstepT : OnceT y acc (visitPartner (cascade (applyAssign E) (d + 1)) y acc t)
+        ∧ (visitPartner (cascade (applyAssign E) (d + 1)) y acc t).edges = es := by
+      unfold visitPartner
+      split
+      · exact ⟨OnceT.refl _ _, hacce⟩
+      · rename_i hnl
+        split
+        · rename_i acc' r hc
+          exact hrec acc t acc' r hacce (by simp) hnl hc
+        · exact ⟨OnceT.refl _ _, hacce⟩
     by_cases htq : t = q
     · subst htq
       -- after this step `t` holds `y`; the rest of the loop keeps it
@@ -155,30 +192,22 @@ theorem foldl_sets [DecidableEq α] {E : Env α} {y : AVal α} (hfix : Fix E y) 
         unfold visitPartner
         split
         · rename_i hl; exact hacc hl
-        · obtain ⟨w', ret, hc, hw'⟩ := assign_sets hfix d acc t y hq
+        · obtain ⟨w', ret, hc, hw'⟩ := assign_sets d acc t y (by rw [hacce]; exact hfix) hq
           rw [hc]; exact hw'
-      have := foldl_rel (rec := cascade (applyAssign E) (d + 1)) (y := y) (Once y) (Once.refl y)
-        (fun _ _ _ => Once.trans) hrec ts (visitPartner (cascade (applyAssign E) (d + 1)) y acc t)
-      exact this.keeps hstep
+      have := foldl_rel_inv (rec := cascade (applyAssign E) (d + 1)) (y := y)
+        (fun acc => acc.edges = es) (OnceT y) (OnceT.refl y) (fun _ _ _ => OnceT.trans) ts
+        (fun acc t' acc' r hi hm hl hc => hrec acc t' acc' r hi (by simp [hm]) hl hc)
+        (visitPartner (cascade (applyAssign E) (d + 1)) y acc t) hstepT.2
+      exact this.1.1.keeps hstep
     · have hmem' : q ∈ ts := by
         rcases List.mem_cons.mp hmem with h | h
         · exact absurd h.symm htq
         · exact h
-      apply ih hmem'
+      apply ih hmem' (fun t' ht' => hps t' (by simp [ht']))
+        (fun acc t' acc' r hi hm hl hc => hrec acc t' acc' r hi (by simp [hm]) hl hc) _ hstepT.2
       intro hl
-      -- the step keeps the lock table and a value that is `y`
-      have hone : Once y acc (visitPartner (cascade (applyAssign E) (d + 1)) y acc t)
-          ∧ (visitPartner (cascade (applyAssign E) (d + 1)) y acc t).locked = acc.locked := by
-        unfold visitPartner
-        split
-        · exact ⟨Once.refl _ _, rfl⟩
-        · rename_i hnl
-          split
-          · rename_i acc' r hc
-            exact ⟨hrec acc t acc' r hnl hc, (cascade_frame (local_assign E) _ acc t y acc' r hnl hc).2.1⟩
-          · exact ⟨Once.refl _ _, rfl⟩
-      rw [hone.2] at hl
-      exact hone.1.keeps (hacc hl)
+      rw [hstepT.1.2.2.1] at hl
+      exact hstepT.1.1.keeps (hacc hl)
 
 /-- **Convergence of an assignment, one command.** From a state with an empty
 lock table: the command fails only if the trait's own validator rejects, the
@@ -188,15 +217,15 @@ before), and every trait of the world changed at most once, to `y`, with one
 notification. -/
 theorem assign_converges [DecidableEq α] (E : Env α) (w : World α) (p q : Pair) (v y : AVal α)
     (hL : w.locked = []) (he : (⟨p, q⟩ : Edge) ∈ w.edges)
-    (hv : validate E p v = .ok y) (hfix : Fix E y) (hq : validate E q y = .ok y)
+    (hv : validate E p v = .ok y) (hfix : Fix E w.edges y) (hq : validate E q y = .ok y)
     (hpre : w.val p ≠ y ∨ w.val q = w.val p) :
     (w.assign E p v).exc = none ∧ (w.assign E p v).world.val p = y ∧ (w.assign E p v).world.val q = y
       ∧ Once y w (w.assign E p v).world := by
   have hbud : w.budget = (w.edges.length - 1 + 1) + 1 := by
     have : 0 < w.edges.length := List.length_pos_of_mem he
     simp only [World.budget]; omega
-  obtain ⟨w', ret, hc, hp'⟩ := assign_sets hfix (w.edges.length - 1 + 1) w p v hv
-  have honce := assign_once hfix _ w p v w' ret (fun new h => by rw [hv] at h; cases h; rfl) hc
+  obtain ⟨w', ret, hc, hp'⟩ := assign_sets (w.edges.length - 1 + 1) w p v hfix hv
+  have honce := assign_once _ w p v w' ret hfix (fun new h => by rw [hv] at h; cases h; rfl) hc
   have hres : w.assign E p v = { world := w', ret := ret } := by
     unfold World.assign; rw [hbud, hc]; rfl
   rw [hres]
@@ -206,9 +235,7 @@ theorem assign_converges [DecidableEq α] (E : Env α) (w : World α) (p q : Pai
   obtain ⟨w1, pay, happ, hshape⟩ := cascade_succ_ok hc
   obtain ⟨new, hval, _, hcase⟩ := applyAssign_ok happ
   rw [hv] at hval; cases hval
-  have hqp : q ∈ w.partners p := by
-    simp only [World.partners, List.mem_map, List.mem_filter]
-    exact ⟨⟨p, q⟩, ⟨he, by simp⟩, rfl⟩
+  have hqp : q ∈ w.partners p := mem_partners.mpr he
   rcases hcase with ⟨hsame, hw1, hpay⟩ | ⟨hne, hpay, hw1⟩
   · -- the trait did not change: nothing happened at all
     have hw' : w' = w := by
@@ -230,7 +257,7 @@ theorem assign_converges [DecidableEq α] (E : Env α) (w : World α) (p q : Pai
     · rw [hpay] at hy'; cases hy'
       simp only [World.unlock]
       rw [hparts]
-      apply foldl_sets hfix _ q hq _ hqp
+      apply foldl_sets _ w.edges hfix q hq _ hqp (fun t ht => Fix.partner hfix ht) _ (by rw [hw1]; rfl)
       intro hl
       have : q = p := by
         have hlk : (w1.lock p).locked = [p] := by rw [hw1]; simp [World.lock, hL]
